@@ -21,6 +21,13 @@ Every fourth history is a *scenario*: a focus chain three to five windows deep w
 level, side branches, distinct cursor shapes, and the focus moved back and forth across branches with a flush after
 most moves, restacking of focused windows, hide/show and shape changes in between.
 
+Two terminal configurations: the harness's own recording driver (`new`, every call the window layer makes is compared)
+and, for 40 % of the histories, the library's mock terminal (`newmock`; the cursor is what the mock reports through
+tickit_term_getctl_int / tickit_mockterm_get_position).  Windows get an explicit blink mode and a non-default shape
+now and then right after creation (the window layer sends CURSORBLINK only for those), so that shape, blink and
+visibility are all sent on a restore.  One history in seven also resizes the terminal (`termsize`: shrinking through
+windows and the cursor cell, growing, same size); the root window follows through its resize handler.
+
 The generator keeps within the engine's scope guards (see harness/focus.c): no operation on closed windows or below
 them, unref only of windows without live children.
 """
@@ -43,15 +50,36 @@ def note(k):
 
 
 class Hist:
-    def __init__(self, L, C, disc=0):
+    def __init__(self, L, C, disc=0, mock=None, resizing=None):
         self.L, self.C = L, C
         self.disc = disc
+        self.mock = (rng.random() < 0.4) if mock is None else mock
+        self.resizing = (disc < 2 and rng.random() < 0.15) if resizing is None else resizing
+        note("term_mock" if self.mock else "term_recording")
+        if self.resizing: note("resizing_history")
         self.w = {0: dict(parent=None, rect=(0, 0, L, C), closed=False, freed=False, vis=True)}
         self.pending = set()
         self.fset = set()      # discipline >= 1: the windows that may take the focus (an antichain)
         self.notify = set()    # windows that asked for child notifications
-        emit("new %d %d" % (L, C))
+        emit("%s %d %d" % ("newmock" if self.mock else "new", L, C))
         if disc and rng.random() < 0.08: self.fset.add(0)
+
+    def term_resize(self):
+        """the terminal changes size: a little, through the windows, down to one cell, back up, or not at all"""
+        x = rng.random()
+        if x < 0.35:
+            L, C = max(1, self.L + rng.randint(-2, 1)), max(1, self.C + rng.randint(-3, 1)); note("termsize_nudge")
+        elif x < 0.6:
+            L, C = rng.randint(1, max(1, self.L)), rng.randint(1, max(1, self.C)); note("termsize_shrink")
+        elif x < 0.7:
+            L, C = rng.choice([(1, 1), (1, self.C), (self.L, 1), (2, 2)]); note("termsize_tiny")
+        elif x < 0.92:
+            L, C = self.L + rng.randint(0, 4), self.C + rng.randint(0, 6); note("termsize_grow")
+        else:
+            L, C = self.L, self.C; note("termsize_same")
+        emit("termsize %d %d" % (L, C))
+        self.L, self.C = L, C
+        self.w[0]["rect"] = (0, 0, L, C)
 
     def ancestors(self, i):
         out = []; i = self.w[i]["parent"]
@@ -132,6 +160,9 @@ class Hist:
             r = (t, l, r[2], r[3])
         self.w[i] = dict(parent=realp, rect=r, closed=False, freed=False, vis=not (flags & 1))
         if self.disc and rng.random() < 0.7 and self.may_join(i): self.fset.add(i)
+        if rng.random() < 0.3:
+            emit("curblink %d %d" % (i, rng.choice([0, 1, 1]))); note("explicit_blink")
+            if rng.random() < 0.8: emit("curshape %d %d" % (i, rng.choice([2, 3])))
 
     def cursor_cell(self, i):
         _, _, n, c = self.w[i]["rect"]
@@ -181,6 +212,10 @@ class Hist:
         us = self.usable()
         nonroot = [i for i in us if i != 0]
         x = rng.random()
+        if self.resizing and rng.random() < 0.09:
+            self.term_resize()
+            if rng.random() < 0.5: emit("flush"); self.pending.clear()
+            return
         if x < 0.06 or len(self.w) == 1:
             self.new_win(); return
         if not nonroot:
@@ -267,6 +302,7 @@ def scenario_history():
     for i in allw:
         if rng.random() < 0.6: emit("notify %d 1" % i)
         if i and rng.random() < 0.8: emit("curshape %d %d" % (i, rng.choice([1, 2, 3])))
+        if i and rng.random() < 0.45: emit("curblink %d %d" % (i, rng.choice([0, 1]))); note("explicit_blink")
         if i and rng.random() < 0.7:
             n_, c_ = h.w[i]["rect"][2], h.w[i]["rect"][3]
             emit("curpos %d %d %d" % (i, rng.randint(0, n_ - 1), rng.randint(0, c_ - 1)))
@@ -274,7 +310,10 @@ def scenario_history():
     targets = chain[1:] + sides
     for _ in range(rng.randint(6, 16)):
         x = rng.random()
-        if x < 0.55:
+        if h.resizing and rng.random() < 0.12:
+            h.term_resize()
+            if rng.random() < 0.6: emit("flush")
+        elif x < 0.55:
             emit("focus %d" % rng.choice(targets if rng.random() < 0.9 else allw))
             if rng.random() < 0.75: emit("flush")
         elif x < 0.67:
@@ -326,7 +365,20 @@ if a.tier == "exhaustive":
             for s in seq: emit(s)
             emit("flush")
             nh += 1
-    info = {"exhaustive_bound": "every sequence of <=4 operations from a 17-letter alphabet on a fixed two-level tree (root, two overlapping children, one grandchild), each closed by a flush", "histories": nh}
+    # the same tree on the library's mock terminal, windows with an explicit blink mode and distinct shapes, and the
+    # terminal resized through the windows and back: every sequence of <= 3 operations
+    setup2 = ["newmock 6 10"] + setup[1:-1] + ["curshape 1 2", "curblink 1 1", "curshape 2 3", "curblink 2 0", "curshape 3 3", "curblink 3 1", "flush"]
+    alphabet2 = ["focus 0", "focus 1", "focus 2", "focus 3", "hide 1", "hide 3", "show 1", "show 3", "lower 2", "curvis 1 0",
+                 "curpos 1 0 0", "curshape 3 2", "curblink 3 0", "curblink 1 0", "hide 0", "flush",
+                 "termsize 3 5", "termsize 2 2", "termsize 6 10", "termsize 8 12"]
+    nh2 = 0
+    for k in range(1, 4):
+        for seq in itertools.product(alphabet2, repeat=k):
+            for s in setup2: emit(s)
+            for s in seq: emit(s)
+            emit("flush")
+            nh2 += 1
+    info = {"exhaustive_bound": "every sequence of <=4 operations from a 17-letter alphabet on a fixed two-level tree (root, two overlapping children, one grandchild), each closed by a flush; and on the library's mock terminal, with explicit blink modes and distinct shapes, every sequence of <=3 operations from a 20-letter alphabet that includes four terminal resizes", "histories": nh + nh2}
 else:
     H = 1800 if a.tier == "quick" else 12000
     for k in range(H):
